@@ -137,6 +137,121 @@ def occ_changes(recs):
     return best
 
 
+# ------------------------------------------------------------------ PS nodes inside networks
+TAB = [F(0), F(1, 2), F(1), F(1), F(3, 2), F(2), F(7, 3), F(5, 2), F(3), F(10, 3), F(4), F(9, 2), F(1, 4), F(11, 5)]
+
+
+def gen_net(dseed, tier):
+    rng = random.Random('c19net/%d' % dseed)
+    big = tier != 'quick' and rng.random() < 0.3
+    n = rng.choice([1, 2, 2, 3] + ([4] if big else []))
+    k = rng.choice([1, 1, 2])
+    nodes = []
+    for j in range(n):
+        if rng.random() < 0.65 or (j == n - 1 and not any(x['ps'] for x in nodes)):
+            nodes.append({'ps': True, 'K': rng.choice([1, 2, 2, 3, 4, 'inf', 'inf']),
+                          'R': q(rng.choice([F(1), F(1), F(2), F(3), F(3, 2), F(1, 2)]))})
+        else:
+            nodes.append({'ps': False, 'K': rng.choice([1, 2, 'inf']), 'R': [1, 1]})
+    arr = [[([rng.choice([0, 1, 1, 2, 3, 5]) for _ in range(rng.randint(1, 4))] if rng.random() < 0.7 else None)
+            for _ in range(n)] for _ in range(k)]
+    if all(a is None for row in arr for a in row):
+        arr[0][0] = [1, 2]
+    for row in arr:
+        for a in row:
+            if a is not None and sum(a) == 0:
+                a[0] = 2
+    routing = []
+    for c in range(k):
+        m = []
+        for i in range(n):
+            row = [0.0] * n
+            budget = 4
+            for j in range(n):
+                if rng.random() < 0.5 and budget > 0:
+                    x = rng.randint(1, min(2, budget))
+                    row[j] = x / 4.0            # feedback (incl. self loops) with probability <= 3/4 overall
+                    budget -= x
+            if sum(row) >= 1.0:
+                row[rng.randrange(n)] = 0.0
+            m.append(row)
+        routing.append(m)
+    mult = [[(rng.randint(1, 9), rng.randint(0, 9), rng.randint(0, 13)) for _ in range(n)] for _ in range(k)]
+    return {'nodes': nodes, 'k': k, 'arr': arr, 'routing': routing, 'mult': mult, 'T': rng.choice([15, 25, 40] + ([80] if big else [])),
+            'seed': rng.randrange(1 << 30)}
+
+
+def run_net(ciw, cfg):
+    """a network with PS nodes on exact rationals; returns per PS node (accept log, records in visit order)"""
+    n, k = len(cfg['nodes']), cfg['k']
+    accept_log = {j + 1: [] for j in range(n)}     # node -> [(ind id, date)] in the order of Node.accept
+    draws = {j + 1: {} for j in range(n)}          # node -> ind id -> [requirements drawn, in order]
+
+    def mk_arr(seq):
+        class Arr(ciw.dists.Distribution):
+            def __init__(self):
+                self.i = 0
+
+            def sample(self, t=None, ind=None):
+                self.i += 1
+                return seq[(self.i - 1) % len(seq)]
+        return Arr()
+
+    def mk_req(node, a, b, c):
+        class Req(ciw.dists.Distribution):
+            def sample(self, t=None, ind=None):
+                l = draws[node].setdefault(ind.id_number, [])
+                v = TAB[(a * ind.id_number + b * len(l) + c) % len(TAB)]
+                l.append(v)
+                return v
+
+            def _sample(self, t=None, ind=None):
+                return self.sample(t, ind)
+        return Req()
+
+    class LPS(ciw.PSNode):
+        def accept(self, next_individual, completed=False):
+            accept_log[self.id_number].append((next_individual.id_number, self.now))
+            super().accept(next_individual, completed)
+
+    names = ['Class %d' % c for c in range(k)]
+    N = ciw.create_network(
+        arrival_distributions={names[c]: [mk_arr(a) if a is not None else None for a in cfg['arr'][c]] for c in range(k)},
+        service_distributions={names[c]: [mk_req(j + 1, *cfg['mult'][c][j]) for j in range(n)] for c in range(k)},
+        routing={names[c]: cfg['routing'][c] for c in range(k)},
+        number_of_servers=[(INF if x['K'] == 'inf' else x['K']) for x in cfg['nodes']],
+        ps_thresholds=[F(*x['R']) for x in cfg['nodes']])
+    ciw.seed(cfg['seed'])
+    Q = ciw.Simulation(N, node_class=[LPS if x['ps'] else ciw.Node for x in cfg['nodes']])
+    Q.simulate_until_max_time(cfg['T'])
+    per_ind = {}
+    for ind in Q.get_all_individuals():
+        for r in ind.data_records:
+            if r.record_type != 'service':
+                raise AssertionError('unexpected record type %r' % (r.record_type,))
+            per_ind.setdefault((r.node, r.id_number), []).append(r)
+    out = []
+    for j, x in enumerate(cfg['nodes']):
+        if not x['ps']:
+            continue
+        node = j + 1
+        seen = {}
+        arrs, recs = [], []
+        for vid, (iid, t) in enumerate(accept_log[node]):
+            kth = seen.get(iid, 0)
+            seen[iid] = kth + 1
+            dl = draws[node].get(iid, [])
+            w = dl[kth] if kth < len(dl) else F(0)      # never started before the horizon: requirement not yet drawn
+            tq, wq = q(t), q(w)
+            arrs.append([vid + 1, tq[0], tq[1], wq[0], wq[1]])
+            rl = per_ind.get((node, iid), [])
+            if kth < len(rl):
+                r = rl[kth]
+                recs.append([vid + 1, q(r.arrival_date), q(r.service_start_date), q(r.exit_date)])
+        out.append({'node': node, 'K': x['K'], 'R': x['R'], 'arrs': arrs, 'recs': recs})
+    return out
+
+
 class C19(Prop):
     id = 'C19'
     num = 19
@@ -159,8 +274,10 @@ class C19(Prop):
                    'ties between simultaneous events are resolved at random by Ciw; dates and per-instant states do not depend on the resolution (checked under two seeds per case)']
 
     def jobs(self, tier, seed):
-        m = 700 if tier == 'quick' else 40000
-        return [{'custom': 'ps', 'dseed': seed * 7919 + i, 'tier': tier} for i in range(m)]
+        m = 2000 if tier == 'quick' else 60000
+        m2 = 500 if tier == 'quick' else 15000
+        return [{'custom': 'ps', 'dseed': seed * 7919 + i, 'tier': tier} for i in range(m)] + \
+               [{'custom': 'net', 'dseed': seed * 7919 + i, 'tier': tier} for i in range(m2)]
 
     def build_tree(self, case, recs, snaps, frecs):
         arrs = []
@@ -169,11 +286,13 @@ class C19(Prop):
             t += d
             arrs.append([j + 1, t, 1, wq[0], wq[1]])
         K = 'inf' if case['K'] == 'inf' else case['K']
-        return [K, case['R'][0], case['R'][1], arrs, recs, snaps, [] if frecs is None else [frecs]]
+        return [K, case['R'][0], case['R'][1], arrs, recs, [snaps], [] if frecs is None else [frecs], []]
 
     def custom_work(self, job, drv):
         import obs
         ciw = obs.ciw
+        if job.get('custom') == 'net':
+            return self.custom_net(job, drv, ciw)
         case = job.get('cfg') or gen_case(job['dseed'], job.get('tier', 'quick'))
         case = case.get('input', case)
         h = hashlib.sha1(json.dumps({k: case[k] for k in ('K', 'R', 'ia', 'w')}, sort_keys=True).encode()).hexdigest()[:16]
@@ -229,6 +348,62 @@ class C19(Prop):
                              'max_occupancy_changes_during_one_service': oc, 'verdict': list(verdict[:1])}
         if job.get('want_kernel') and first and len(case['ia']) <= 8:
             res['kernel_case'] = sx.to_coq(first[0])
+        return res
+
+    def custom_net(self, job, drv, ciw):
+        """PS nodes inside a network (feedback, several classes, internal arrivals at rational instants):
+        each PS node's accept log is the model's arrival list, its data records must carry the model's dates"""
+        cfg = job.get('cfg') or gen_net(job['dseed'], job.get('tier', 'quick'))
+        cfg = cfg.get('input', cfg)
+        h = hashlib.sha1(json.dumps(cfg, sort_keys=True).encode()).hexdigest()[:16]
+        res = {'region': 'ps-in-network', 'gseed': job.get('dseed'), 'hash': h, 'nframes': 0, 'exc': None, 'status': 'ok', 'stats': {}}
+        verdict, why, bad, per = ('A', []), None, None, []
+        try:
+            per = run_net(ciw, cfg)
+            for pn in per:
+                K = 'inf' if pn['K'] == 'inf' else pn['K']
+                tree = [K, pn['R'][0], pn['R'][1], pn['arrs'], pn['recs'], [], [], [[cfg['T'], 1]]]
+                pn['tree'] = tree
+                v = drv.ask(self.num, sx.dump(tree))
+                if v[0] != 'A':
+                    verdict, bad = v, pn
+                    break
+        except Inexact:
+            res['status'] = 'inexact'
+            return res
+        except Exception:
+            verdict = ('R', 0, 199, [])
+            why = traceback.format_exc()[-1200:]
+        res['verdict'] = verdict
+        res['nframes'] = sum(len(pn['arrs']) + len(pn['recs']) for pn in per)
+        oc = max([occ_changes(pn['recs']) for pn in per if pn['recs']] or [0])
+        res['nontrivial'] = oc >= 3
+        st = {'network_cases': 1, 'network_ps_nodes': len(per), 'network_ps_visits': sum(len(pn['arrs']) for pn in per),
+              'network_ps_records': sum(len(pn['recs']) for pn in per),
+              'network_cases_with_revisits': 1 if any(len(pn['arrs']) > len(set(i for i, _ in [(a[0], 0) for a in pn['arrs']])) for pn in per) else 0,
+              'occchg_%s' % ('0' if oc == 0 else '1-2' if oc <= 2 else '3-5' if oc <= 5 else '6-10' if oc <= 10 else '11+'): 1}
+        for pn in per:
+            kk = 'cap_inf' if pn['K'] == 'inf' else 'cap_%d' % pn['K']
+            st[kk] = st.get(kk, 0) + 1
+            tk = 'thr_%d/%d' % tuple(pn['R'])
+            st[tk] = st.get(tk, 0) + 1
+        res['stats'] = st
+        if verdict[0] != 'A':
+            model = drv.ask('m190', sx.dump(bad['tree'][:4])) if bad else None
+            res['cfg'] = {'input': cfg, 'replay_job': {'custom': 'net'}, 'ps_node': bad and bad['node'],
+                          'arrivals(visit id, date, requirement)': bad and bad['arrs'],
+                          'implementation_records(visit id, arrival, start, exit)': bad and bad['recs'],
+                          'model(departures, starts, settled states)': model[1] if model and model[0] == 'M' else str(model)}
+            res['finding'] = None
+            res['detail'] = why or self.explain_case(cfg, None, verdict)
+        if job.get('want_sample'):
+            res['sample'] = {'network': {kk: cfg[kk] for kk in ('nodes', 'k', 'arr', 'routing', 'T')},
+                             'ps_nodes': [{'node': pn['node'], 'visits': len(pn['arrs']), 'records': len(pn['recs']),
+                                           'first_records(visit, arrival, start, exit)': [[r[0]] + ['%d/%d' % tuple(x) for x in r[1:]] for r in pn['recs'][:4]]}
+                                          for pn in per],
+                             'max_occupancy_changes_during_one_service': oc, 'verdict': list(verdict[:1])}
+        if job.get('want_kernel') and per and len(per[0]['arrs']) <= 8:
+            res['kernel_case'] = sx.to_coq(per[0]['tree'])
         return res
 
     def explain_case(self, case, first, v):
